@@ -157,6 +157,16 @@ class ACond:
         return "(%r %s %r)" % (self.left, self.op, self.right)
 
 
+class Callback:
+    """A caller-supplied callable with a known abstract result."""
+
+    def __init__(self, name, result):
+        self.name, self.result = name, result
+
+    def __repr__(self):
+        return "<callback %s>" % self.name
+
+
 class FuncVal:
     def __init__(self, func):
         self.func = func
@@ -239,6 +249,7 @@ class Interp:
         self.folder = ctx.folder
         self.summaries = summaries or {}
         self.overrides = overrides or {}  # ("module", "name") -> value
+        self._mod_objs = {}
         self._len_source = {}
         self.ext_summaries = {}   # "urllib.parse.unquote" -> fn(interp, pos, kw, node)
         self.hole_free_of = ""    # characters the symbolic holes are assumed not to contain
@@ -293,7 +304,7 @@ class Interp:
         if isinstance(v, (ACond,)):
             return None
         if isinstance(v, Opaque):
-            return None if v.kind in ("set", "list", "iter") else True
+            return None if v.kind in ("set", "list", "iter", "maybe-row") else True
         if isinstance(v, (RepList, Star)):
             return None
         if isinstance(v, (FuncVal, Builtin, TypeVal, ModVal)):
@@ -528,6 +539,7 @@ class Interp:
             key = self.eval(target.slice, env)
             if isinstance(base, (dict, list)):
                 base[key] = v
+                self.trace.events.append(("setitem", base, key, v, target))
             elif isinstance(base, (Opaque, Sym)):
                 self.trace.events.append(("setitem", base, key, v, target))
             else:
@@ -583,7 +595,11 @@ class Interp:
             if node.id in e:
                 return _thaw(e[node.id])
             if node.id in mod.toplevel:
-                return Opaque(node.id, "obj")
+                # one object per module-level name: identity tests (sentinels) are meaningful
+                key = (modname, node.id)
+                if key not in self._mod_objs:
+                    self._mod_objs[key] = Opaque(node.id, "obj")
+                return self._mod_objs[key]
         if node.id in ("str", "int", "list", "tuple", "dict", "set", "bytes", "float", "bool", "object"):
             return TypeVal(node.id)
         if node.id in ("isinstance", "len", "map", "locals", "hasattr", "any", "all", "sorted", "enumerate",
@@ -810,6 +826,9 @@ class Interp:
 
     def compare(self, op, a, b, node):
         if isinstance(op, (ast.Is, ast.IsNot)):
+            if (b is None or a is None) and isinstance(a if b is None else b, Opaque) and (a if b is None else b).kind == "maybe-row":
+                c_ = ACond("is", a if b is None else b, None, node)
+                return c_ if isinstance(op, ast.Is) else ACond("not", c_, None, node)
             if b is None or a is None:
                 other = a if b is None else b
                 if isinstance(other, (Sym, AStr, Opaque, RepList, ACond, list, dict, tuple, str, int, FuncVal)):
@@ -928,6 +947,10 @@ class Interp:
             return Sym("%s[%d]" % (base.name, key), "char", True)
         if isinstance(base, dict):
             if key not in base:
+                import collections as _c
+                if isinstance(base, _c.defaultdict) and base.default_factory is not None:
+                    base[key] = base.default_factory()
+                    return base[key]
                 raise RaiseEx("KeyError", repr(key), node)
             return base[key]
         if isinstance(base, (list, tuple, str)):
@@ -1037,6 +1060,9 @@ class Interp:
                 return self.ext_summaries[fn.name](self, pos, kw, node)
             if fn.name in ("copy.copy", "copy.deepcopy") and pos:
                 return copy.deepcopy(pos[0]) if isinstance(pos[0], (dict, list)) else pos[0]
+        if isinstance(fn, Callback):
+            self.trace.events.append(("callback", fn, pos, kw, node))
+            return fn.result
         if isinstance(fn, (Opaque, Sym, ModVal)):
             self.trace.events.append(("call-opaque", fn, pos, kw, node))
             return Opaque("%s()" % _nm(fn), "obj")
@@ -1141,6 +1167,16 @@ class Interp:
         if name == "locals":
             return {k: v for k, v in env.items() if not k.startswith("__")}
         if name == "hasattr":
+            o, a = pos[0], pos[1]
+            if isinstance(a, str):
+                if isinstance(o, Callback):
+                    return a == "__call__"
+                if isinstance(o, (str, list, tuple, dict, int, float)) or o is None:
+                    return hasattr(o, a)
+                if isinstance(o, AStr) or (isinstance(o, Sym) and o.kind == "str"):
+                    return hasattr("", a)
+                if isinstance(o, (FuncVal, Builtin, TypeVal)) and a == "__call__":
+                    return True
             return ACond("hasattr", pos[0], pos[1], node)
         if name in ("any", "all"):
             v = pos[0]
@@ -1194,7 +1230,7 @@ class Interp:
             else:
                 if isinstance(v, Sym) and v.kind == short:
                     return True
-                if isinstance(v, Opaque) and v.name == short:
+                if isinstance(v, Opaque) and (v.name == short or v.kind == short):
                     return True
                 if isinstance(v, Sym) and v.kind == "any":
                     res = "?"
@@ -1368,6 +1404,10 @@ class Interp:
                 return Opaque("cursor", "iter")
             if attr == "cursor":
                 return Opaque("cursor", "iter")
+            if attr == "fetchone" and isinstance(base, Opaque) and base.kind == "iter":
+                # a row or None: `is None` / truthiness tests on it are undecided
+                self.trace.events.append(("call-opaque", base, attr, pos, kw, node))
+                return Opaque("%s.fetchone()" % _nm(base), "maybe-row")
             if attr == "split" and isinstance(base, Sym):
                 return self.str_split(as_astr(base), pos, node)
             self.trace.events.append(("call-opaque", base, attr, pos, kw, node))
@@ -1375,6 +1415,9 @@ class Interp:
         if isinstance(base, ModVal):
             self.trace.events.append(("call-ext", base.name + "." + attr, pos, kw, node))
             return Opaque("%s.%s()" % (base.name, attr), "obj")
+        if base is None or isinstance(base, (bool, int, float)):
+            if not hasattr(base, attr):
+                raise RaiseEx("AttributeError", "%r object has no attribute %r" % (type(base).__name__, attr), node)
         raise Unsupported("method %s on %r at line %s" % (attr, base, node.lineno))
 
     def str_join(self, sep, coll):
